@@ -192,10 +192,29 @@ pub fn mark() -> u64 {
 /// `id` (ids are addresses and get reused, so an entry left behind by an earlier thread must not
 /// be mistaken for the new one).
 pub fn adopt(id: usize, mark: u64) {
+	// an entry left behind under this id by an earlier thread must not be read as the new one's
+	with_reg(|r| {
+		if r.get(&id).map(|s| s.reg <= mark) == Some(true) {
+			r.remove(&id);
+		}
+	});
 	let start = Instant::now();
-	while state(id).reg <= mark && start.elapsed() < Duration::from_secs(2) {
+	while state(id).reg <= mark {
+		if start.elapsed() > Duration::from_secs(30) {
+			// the new thread was not scheduled: whatever the case concludes is not a verdict
+			LOST_CONTROL.store(true, Ordering::SeqCst);
+			return;
+		}
 		std::thread::sleep(Duration::from_micros(50));
 	}
+}
+
+static LOST_CONTROL: AtomicBool = AtomicBool::new(false);
+
+/// true (once) if, since the last call, the harness failed to get hold of a decoder thread in
+/// time: the case that was running is inconclusive
+pub fn take_lost_control() -> bool {
+	LOST_CONTROL.swap(false, Ordering::SeqCst)
 }
 
 /// budget for decoder threads that have not been seen yet (None = unlimited)
@@ -263,6 +282,15 @@ pub fn wait_quiescent(streams: &[(usize, Arc<DecoderLog>)], timeout: Duration) -
 		}
 		std::thread::sleep(Duration::from_micros(50));
 	}
+}
+
+/// `wait_quiescent`; a timeout marks the running case as inconclusive (see `take_lost_control`)
+pub fn wait_quiescent_or_flag(streams: &[(usize, Arc<DecoderLog>)], timeout: Duration) -> bool {
+	let ok = wait_quiescent(streams, timeout);
+	if !ok {
+		LOST_CONTROL.store(true, Ordering::SeqCst);
+	}
+	ok
 }
 
 /// record the source index of every frame a decoder delivers (C07)
